@@ -307,6 +307,12 @@ def check_lookup_growth(ctx, F):
                     continue
                 seen += 1
                 tgt = effects.strip_uid(e['args_val'][1])
+                # the checked spelling `len.checked_add(p).filter(..).ok_or(..)?` is the sum len + p on the path that goes on
+                peeled = tgt
+                while isinstance(peeled, tuple) and peeled and (peeled[0] == 'unwrap' or (peeled[0] == 'payload' and peeled[2] in ('Some', 'Ok')) or (peeled[0] == 'call' and str(peeled[1]).endswith(('Option::<T>::ok_or', 'Option::<T>::ok_or_else', 'Option::<T>::filter')) and peeled[2])):
+                    peeled = peeled[1] if peeled[0] in ('unwrap', 'payload') else peeled[2][0]
+                if isinstance(peeled, tuple) and peeled and peeled[0] == 'call' and str(peeled[1]).endswith('::checked_add') and len(peeled[2]) == 2:
+                    tgt = sym.mk_bin('Add', peeled[2][0], peeled[2][1])
                 tab = e['args'][0]
                 cur = [x for x in sym.subterms(tgt) if isinstance(x, tuple) and x and x[0] == 'len']
                 wraps = sym.contains(tgt, lambda x: isinstance(x, tuple) and x and x[0] == 'bin' and x[1].endswith('.w'))
